@@ -220,7 +220,8 @@ def run(ctx):
     want = {"frequencies": "data[1:-1, 1]", "errors2": "data[1:-1, 2]", "underflow": "data[0, 1]", "overflow": "data[-1, 1]"}
     okg = c and all(U(kwarg(c[0], k)) == v for k, v in want.items())
     tg = U(g4.node)
-    okg = okg and "Statistics(sum=data[1:-1, 3].sum(), sum2=data[1:-1, 4].sum())" in tg
+    sc = [x for x in calls_in(g4.node) if U(x.func) == "Statistics"]
+    okg = okg and bool(sc) and U(kwarg(sc[0], "sum")) == "data[1:-1, 3].sum()" and U(kwarg(sc[0], "sum2")) == "data[1:-1, 4].sum()"
     ctx.check(bool(okg), "C17.e", "geant4._create_h1", "first row -> underflow, last row -> overflow, rows between -> contents / errors / sums",
               "the Geant4 reader no longer maps first / last / inner rows to underflow / overflow / contents consistently", g4.where)
 
